@@ -77,6 +77,17 @@ class HierDictDocument(DictDocument):
 
         return retval
 
+    @staticmethod
+    def _check_in_object(body_class, in_object, doc):
+        """A request whose body is null, missing or an empty wrapper leaves
+        nothing to call a function that has parameters with. That's the
+        client's fault, not an internal error."""
+
+        if in_object is None or (isinstance(in_object, list)
+                                                     and len(in_object) == 0):
+            if len(body_class.get_flat_type_info(body_class)) > 0:
+                raise ValidationError(doc, "Request body not found in %r")
+
     def get_complex_as(self, attr):
         if attr.complex_as is None:
             return self.complex_as
@@ -117,6 +128,7 @@ class HierDictDocument(DictDocument):
 
             result_message = self._doc_to_object(ctx, body_class, doc,
                                                                  self.validator)
+            self._check_in_object(body_class, result_message, doc)
             ctx.in_object = result_message
 
         else:
